@@ -483,6 +483,8 @@ def corpus():
             {'attrs': [[S('p'), {'t': 'seq', 'xs': [I(1), I(2)], 'as': 'list'}]], 'url': None, 'order': 1,
              'behaviour': 'ok'},
             {'attrs': [[S('p'), T('first')]], 'url': None, 'order': 0, 'behaviour': 'ok'}]},
+        # scale: more than 128 attributes in total, through both routes
+    ] + [g_scale(__import__('random').Random(7), 130), g_scale(__import__('random').Random(8), 200)] + [
         # a provider that RETURNS something unmergeable (a dict) loses only its own contribution
         {'kind': 'start', 'env': {}, 'unmodelled_env': False, 'python_plugin': False, 'plugins': [
             {'attrs': [[S('first'), T('1')]], 'url': None, 'order': 0, 'behaviour': 'ok'},
